@@ -36,7 +36,7 @@ EPS = qval(1e-6)
 def L():
     global _L
     if _L is None:
-        _L = loader.load(["smoothing"])
+        _L = loader.load(["smoothing"], symbolic_pi=True)
     return _L
 
 
